@@ -14,7 +14,7 @@ use crate::Cfg;
 pub const FLOORS: &[&str] = &[
     "at_ffff:continue", "at_ffff:step", "at_ffff:si", "at_ffff:so", "below_origin:resume",
     "above_fe00:resume", "parked_on_halt:resume", "ended_by_eof", "bound_checked", "executed_at_fdff",
-    "halt_planted_at_breakpoint", "breakpoints_removed_after_several_hits",
+    "halt_planted_at_breakpoint", "breakpoints_removed_after_several_hits", "halt_or_ret_written_as_a_data_word",
 ];
 
 pub fn run(cfg: &Cfg, col: &mut Collector) {
@@ -45,6 +45,29 @@ fn one_case(seed: u64, i: u64) -> CaseOut {
             break;
         }
         built = gen_structured(&mut rng, &o);
+    }
+    if rng.chance(1, 4) {
+        // the same image, its HALTs (and RETs) written as data words: what a word does when the PC reaches it is
+        // decided by the word, not by the directive that produced it
+        let mut n = 0;
+        for it in built.program.items.iter_mut() {
+            if let Item::Stmt { stmt, .. } = it {
+                match stmt {
+                    Stmt::Alias(0x25) => {
+                        *stmt = Stmt::Fill(0xF025);
+                        n += 1;
+                    }
+                    Stmt::Ret if rng.bool() => {
+                        *stmt = Stmt::Fill(0xC1C0);
+                        n += 1;
+                    }
+                    _ => {}
+                }
+            }
+        }
+        if n > 0 {
+            out.class("halt_or_ret_written_as_a_data_word");
+        }
     }
     let img = match encode(&built.program) {
         Verdict::Accept(img) => img,
